@@ -112,6 +112,8 @@ type FuncEnc struct {
 	// (inline assertions "at call #n to F" of a contract).
 	CallHook func(e *FuncEnc, in ssa.Instruction, name string, argVals []ssa.Value, args []string)
 	ErrFormats       map[string]string // fmt.Errorf format literal -> literal symbol (ghost errfmt)
+	inlineStack      []*inlineFrame
+	fvBind           map[*ssa.FreeVar]ssa.Value
 	BodyErrs         []string          // "request body could not be read/decoded" conditions seen so far
 }
 
@@ -525,7 +527,7 @@ func (e *FuncEnc) computePrivate() {
 				if _, isArr := a.Type().(*types.Pointer).Elem().Underlying().(*types.Array); isArr {
 					continue
 				}
-				if addrOnly(a, 0) {
+				if addrOnly(a, 0) || (e.W != nil && e.W.InlineClosures && confinedAlloc(a)) {
 					e.private[a] = true
 				}
 			}
@@ -555,6 +557,7 @@ func (e *FuncEnc) init() {
 	e.summarized = map[*ssa.BasicBlock]bool{}
 	e.ErrFormats = map[string]string{}
 	e.deferReach = map[*ssa.Defer]string{}
+	e.fvBind = map[*ssa.FreeVar]ssa.Value{}
 }
 
 // Encode generates the body and obligations of the function.
@@ -662,7 +665,14 @@ func (e *FuncEnc) encodeBlock(b *ssa.BasicBlock) {
 		}
 		preds = append(preds, p)
 	}
-	if b.Index == 0 {
+	var fr *inlineFrame
+	if n := len(e.inlineStack); n > 0 {
+		fr = e.inlineStack[n-1]
+	}
+	isEntry := (fr == nil && b.Index == 0) || (fr != nil && b == fr.entry)
+	if isEntry && fr != nil {
+		e.reach[b] = fr.reach0
+	} else if isEntry {
 		e.reach[b] = "true"
 	} else {
 		var es []string
@@ -673,7 +683,7 @@ func (e *FuncEnc) encodeBlock(b *ssa.BasicBlock) {
 		e.reach[b] = e.define(fmt.Sprintf("reach%d", b.Index), "Bool", r)
 	}
 	e.curReach = e.reach[b]
-	if b.Index != 0 {
+	if !isEntry {
 		if len(preds) == 0 {
 			return // dead block
 		}
